@@ -831,11 +831,19 @@ Module ShapeDigest.
   Import String.
   Definition reviewed_shape_sha256 : string :=
     "7508d73d354a3e0277120c860960ccdbc78482944e98a314fe8f1d7d0ede4fe7"%string.
+  Definition reviewed_mint_shape_sha256 : string :=
+    "7899e813144370d3155d40a865b2520cecfd749c70778e2109b038591249402e"%string.
 End ShapeDigest.
 Definition reviewed_shape_sha256 := ShapeDigest.reviewed_shape_sha256.
+Definition reviewed_mint_shape_sha256 := ShapeDigest.reviewed_mint_shape_sha256.
+Definition reviewed_mint_shape_len : Z := 56.
 Definition reviewed_shape_len : Z := 147.
 Lemma slice_shape_reviewed :
   slice_shape_sha256 = reviewed_shape_sha256 /\ slice_shape_len = reviewed_shape_len.
+Proof. split; vm_compute; reflexivity. Qed.
+
+Lemma mint_shape_reviewed :
+  mint_shape_sha256 = reviewed_mint_shape_sha256 /\ mint_shape_len = reviewed_mint_shape_len.
 Proof. split; vm_compute; reflexivity. Qed.
 
 Lemma rewards_positive : forall k logdiff diff kqi,
